@@ -1043,6 +1043,8 @@ impl HomeRelayWatch {
     /// updates the URL in the watchable *before* sending `SetHomeRelay(false)`, so by
     /// the time the old actor tries to write, the URL no longer matches.
     fn set_status(&self, url: &RelayUrl, state: RelayConnectionState) {
+        #[cfg(feature = "verif-hooks")]
+        crate::verif_hooks::pause("homerelay.set_status.enter");
         if self.inner.get().as_ref().map(RelayStatus::url) == Some(url) {
             #[cfg(feature = "verif-hooks")]
             crate::verif_hooks::pause("homerelay.between_get_and_set");
